@@ -248,6 +248,13 @@ def o_bounds(I, T, c):
     out = []
     with warnings.catch_warnings():
         warnings.simplefilter('ignore')
+        if c.get('unchecked_first'):
+            # the same state asked for without range checking first (whatever that gives): the checked answer that follows in
+            # the same process must be the same as if nothing had been asked before
+            try:
+                getattr(T, fn)(*args, False)
+            except Exception:
+                pass
         # raising is neither "a value" nor "no value": never acceptable with range checking on, wherever the state lies
         try:
             r = getattr(T, fn)(*args, True)
@@ -568,8 +575,12 @@ def oracle(ctx, I, T, res, rng, scale=1.0):
     for p in edge_values(PC1) + edge_values(plow(T)) + [plo * f for f in (0.5, 1 - 1e-3, 1 - 1e-6, 1 + 1e-6, 1 + 1e-3, 2)] + [0.0, -1.0, 1.0, 2 * PC1] + \
             [10 ** rng.uniform(1, 7.5) for _ in range(n(60, 1500))]:
         cases.append(('tsat', (p,)))
-    for fn, args in cases:
+    for p in [PC1 * f for f in (1 + 1e-6, 1.001, 1.1, 2, 4)] + [30e6, 50e6, 100e6]:
+        cases.append(('tsat', (p,)))
+    for k, (fn, args) in enumerate(cases):
         apply('bounds', {'fn': fn, 'args': list(args)})
+        if fn == 'tsat' or k % 7 == 0:
+            apply('bounds', {'fn': fn, 'args': list(args), 'unchecked_first': True})
     # the two classifiers
     rc = []
     for t in grid(0.01, 800., n(40, 400)):
